@@ -40,6 +40,7 @@ func (l *Lexer) Next() bool {
 	var st stateFunc
 
 	for st = l.state; !l.finished(); {
+		verifTick()
 		var c rune
 		var s int
 		var err error
